@@ -359,11 +359,13 @@ pub struct TreeCfg {
     pub tail_levels: Vec<u32>,
     /// dyadic tail bits of macro-atom alphabets per value depth (missing entry = 24)
     pub macro_tail_bits: Vec<u32>,
+    /// equispaced verification points per run of a subdivided word
+    pub verify_points: u32,
 }
 
 impl Default for TreeCfg {
     fn default() -> Self {
-        TreeCfg { lattice: vec![1 << 12, 1 << 9, 1 << 5, 8, 4], macro_cells: vec![1 << 10, 1 << 8, 1 << 5, 8, 4], tail_bits: 40, tail_points: 2, restart_probes: 10, sig_probes: 4, max_depth: 24, scan_points: 16, max_classes: 4096, exec_budget: 2_000_000_000, collect_flat: false, deadline: None, tail_levels: vec![], macro_tail_bits: vec![] }
+        TreeCfg { lattice: vec![1 << 12, 1 << 9, 1 << 5, 8, 4], macro_cells: vec![1 << 10, 1 << 8, 1 << 5, 8, 4], tail_bits: 40, tail_points: 2, restart_probes: 10, sig_probes: 4, max_depth: 24, scan_points: 16, max_classes: 4096, exec_budget: 2_000_000_000, collect_flat: false, deadline: None, tail_levels: vec![], macro_tail_bits: vec![], verify_points: 128 }
     }
 }
 
@@ -863,7 +865,7 @@ impl<'a> Explorer<'a> {
         let cost = self.cnt.execs - execs_before;
         let ext_ok = res.ups.iter().all(|u| (u.0 as usize) < p.len());
         let level1_ok = !col_l1_overflow && !level1.is_empty();
-        if ext_ok && cost >= 3000 && self.memo_entries < 2048 && level1_ok {
+        if ext_ok && cost >= 3000 && self.memo_entries < 2048 && level1_ok && std::env::var("VERIF_NOMEMO").is_err() {
             // second probe of each witness on another continuation seed
             for w in wit.iter_mut() {
                 let mut s = p.clone();
@@ -1088,14 +1090,15 @@ impl<'a> Explorer<'a> {
             if let Some(r) = self.subdivide(p, path, pts, vdepth) {
                 if vdepth >= 1 && std::env::var("VERIF_CHECK_SUB").is_ok() {
                     let save = self.cfg.lattice.clone();
-                    self.cfg.lattice = vec![1 << 12; 6];
+                    self.cfg.lattice = vec![1 << 14; 6];
                     let r2 = self.lattice_range(p, path, vdepth, 0, 1u64 << 53);
                     self.cfg.lattice = save;
                     let k = self.grid.k();
                     let (a, b) = (r.cdf(k), r2.cdf(k));
                     let d = a.iter().zip(b.iter()).map(|(x, y)| (x - y).abs()).fold(0.0, f64::max);
                     let du = (r.total_up() - r2.total_up()).abs();
-                    if d > 2e-3 || du > 2e-3 {
+                    let thr: f64 = std::env::var("VERIF_CHECK_SUB").ok().and_then(|v| v.parse().ok()).unwrap_or(2e-3);
+                    if d > thr || du > thr {
                         eprintln!("SUBCHECK mismatch at prefix {:x?}: max cdf diff {:.3e}, up diff {:.3e} (sub up {:.4} lattice up {:.4})", p, d, du, r.total_up(), r2.total_up());
                     }
                 }
@@ -1201,8 +1204,16 @@ impl<'a> Explorer<'a> {
                     continue;
                 }
                 let mut prev = (start, runs[i].1);
-                for t in 1..16u64 {
-                    let j = start + n / 16 * t;
+                // K equispaced interior points: an isolated accept band inside a run of rejections (the lower part of one
+                // step of a v -> floor(ln v / lambda) staircase, 4 % of the run in H2PE's tails) hides from 15 points
+                // (a band narrower than 1/K of the run can still hide: K = 128 quick / 256 thorough)
+                // K grows with the probability mass of the path to this node (a missed band costs its share of that
+                // mass), so that the total verification work stays bounded: K = 16 .. verify_points
+                let kv = (16.0 + (self.cur_mass * 131072.0).min(self.cfg.verify_points.max(16) as f64 - 16.0)) as u64;
+                let mut vpts: Vec<u64> = (1..kv).map(|t| start + (n as u128 * t as u128 / kv as u128) as u64).collect();
+                vpts.sort_unstable();
+                vpts.dedup();
+                for &j in vpts.iter().filter(|&&j| j > start && j < end) {
                     let c = self.cheap(p, Self::word53(j));
                     if c != prev.1 {
                         extra.push((prev.0, prev.1, j, c));
